@@ -31,10 +31,25 @@ LastColonPattern(r, ue) ==
     LET c == Colons(r)
     IN IF c = {} THEN <<0, 0>> ELSE IF Max(c) >= ue THEN <<ue, Max(c)>> ELSE <<Max(c), Max(c)>>
 
+\* ~Curves only: "a mnemonic ending in a period" -- when a non-blank is directly followed by two periods (before the last
+\* colon), the name runs up to and including the first of the LAST such pair of periods
+DoubleDots(s) == {i \in 1..(Len(s) - 2) : s[i] # L!SP /\ s[i + 1] = L!DOT /\ s[i + 2] = L!DOT}
+PairsBefore(s, lim) == {i \in 1..(Len(s) - 1) : s[i] = L!DOT /\ s[i + 1] = L!DOT /\ i + 1 < lim}
+CurvesDotted(s, sec) == sec = "Curves" /\ L!Last(s, L!COLON) # 0 /\ \E i \in DoubleDots(s) : i + 1 < L!Last(s, L!COLON)
+
 AlgoParse(line, sec) ==
     LET s  == L!Strip(line)
         c1 == L!First(s, L!COLON)
-    IN IF c1 # 0 /\ L!First(L!Sub(s, 1, c1 - 1), L!DOT) = 0
+    IN IF CurvesDotted(s, sec)
+       THEN LET j    == Max(PairsBefore(s, L!Last(s, L!COLON)))
+                rest == L!Sub(s, j + 2, Len(s))
+                ue   == L!UnitEnd(rest)
+                m    == LastColonPattern(rest, ue)
+            IN [name  |-> L!Strip(L!Sub(s, 1, j)),
+                unit  |-> L!FixUnit(L!Sub(rest, 1, m[1] - 1)),
+                value |-> L!Strip(L!Sub(rest, m[1], m[2] - 1)),
+                descr |-> L!Strip(L!Sub(rest, m[2] + 1, Len(rest)))]
+       ELSE IF c1 # 0 /\ L!First(L!Sub(s, 1, c1 - 1), L!DOT) = 0
        THEN [name |-> L!Strip(L!Sub(s, 1, c1 - 1)), unit |-> <<>>, value |-> L!Strip(L!Sub(s, c1 + 1, Len(s))), descr |-> <<>>]
        ELSE LET d1   == L!First(s, L!DOT)
                 rest == L!Sub(s, d1 + 1, Len(s))
